@@ -257,6 +257,35 @@ func ruleShutdown(c *core.Ctx, a *epAnchors) {
 		}
 	}
 	c.Check(ranged, rule, "bus/net.endPoint.closeWith/range", fn.Pos(), "iterates over len(e.handlers)", "shutdown does not iterate over the whole handler table")
+	// the walk over the handlers happens on every path of closeWith: an early return
+	// (a failing stream.Close, say) must not skip it
+	{
+		isWalk := func(x ssa.Instruction) bool {
+			if fn != outer {
+				call, ok := x.(ssa.CallInstruction)
+				return ok && core.IsCallTo(call, fn)
+			}
+			call, ok := x.(*ssa.Call)
+			if !ok {
+				return false
+			}
+			bi, ok := call.Call.Value.(*ssa.Builtin)
+			return ok && bi.Name() == "len" && isFieldOf(call.Call.Args[0], a.handlers)
+		}
+		every := true
+		var at token.Pos
+		for _, ret := range core.Returns(outer) {
+			if !core.MustPassBefore(outer, ret, isWalk) {
+				every = false
+				at = ret.Pos()
+			}
+		}
+		why := ""
+		if !every {
+			why = "closeWith can return (at " + c.Pos(at) + ") without having walked the handler table: when that path is taken (the stream's Close reporting an error, as tls.Conn does once the peer is gone) no handler is closed, pending calls and subscriptions hang"
+		}
+		c.Check(every, rule, "bus/net.endPoint.closeWith/always", outer.Pos(), "the handlers are closed on every path of the shutdown", why)
+	}
 }
 
 // clientCall gathers the anchors of bus.client.Call.
@@ -616,6 +645,58 @@ func ruleSubscriptionsClose(c *core.Ctx, a *epAnchors) {
 				hasOk = true
 			}
 		}
+	}
+	// the handler is removed by the subscriber only while it is still its own: when the
+	// queue was found closed the endpoint has already dropped the handler and may have
+	// given its slot to another registration
+	{
+		bad := ""
+		var removes []ssa.CallInstruction
+		for _, f := range core.AnonFuncs(goFn) {
+			for _, call := range core.Calls(f) {
+				cc := call.Common()
+				if cc.IsInvoke() && cc.Method.Name() == "RemoveHandler" {
+					removes = append(removes, call)
+				}
+			}
+		}
+		for _, rm := range removes {
+			if _, plain := rm.(*ssa.Call); !plain {
+				bad = "RemoveHandler is deferred (or asynchronous) in the forwarding goroutine: it also runs when the queue was closed by the endpoint, and then removes whatever registration has taken the freed slot since (another subscriber's channel is closed)"
+				continue
+			}
+			// from the queue-closed edge the removal is unreachable
+			for _, b := range goFn.Blocks {
+				ifi, ok := b.Instrs[len(b.Instrs)-1].(*ssa.If)
+				if !ok {
+					continue
+				}
+				isOK := func(v ssa.Value) bool {
+					e, isE := core.Canon(v).(*ssa.Extract)
+					if !isE {
+						return false
+					}
+					switch x := e.Tuple.(type) {
+					case *ssa.Select:
+						return true
+					case *ssa.UnOp:
+						return x.Op == token.ARROW && x.CommaOk && inSubscribe(x.X) == core.Canon(site.queue)
+					}
+					return false
+				}
+				closedCut := core.CutEstablishing(core.IsFalse(isOK))
+				for si, sc := range b.Succs {
+					if closedCut(b, si) && len(sc.Instrs) > 0 {
+						r := core.ReachFrom(core.Point{B: sc, I: 0}, func(x ssa.Instruction) bool { return x.Block() == b }, nil)
+						if r.Has(rm.(ssa.Instruction)) {
+							bad = "RemoveHandler is reachable after the queue was found closed: the endpoint has already dropped that handler and may have reused its slot"
+						}
+					}
+				}
+				_ = ifi
+			}
+		}
+		c.Check(bad == "", rule, "bus.client.Subscribe/remove-own-handler", goFn.Pos(), "the handler is only removed on the abort path, while the queue is still open", bad)
 	}
 	c.Check(hasOk, rule, "bus.client.Subscribe/reads-queue", goFn.Pos(), "the goroutine receives from the handler queue (its close ends the subscription)", "the forwarding goroutine does not receive from the queue registered with the endpoint")
 
